@@ -163,7 +163,8 @@ type loggerWriter struct {
 }
 
 func (l *loggerWriter) Write(p []byte) (int, error) {
-	p = bytes.TrimSpace(p)
-	l.logFunc(string(p))
-	return len(p), nil
+	// All of p is consumed, whatever is trimmed from the message.
+	n := len(p)
+	l.logFunc(string(bytes.TrimSpace(p)))
+	return n, nil
 }
